@@ -31,7 +31,7 @@ DIAG_FATAL = re.compile(r"^[^:\n]+: \S", re.M)
 POSITIONS = {
     "decl": ["file", "block", "nested", "macro", "late"],
     "stmt": ["block", "nested", "macro", "late"],
-    "expr": ["block", "nested", "file", "macro", "late"],
+    "expr": ["block", "nested", "unevaluated", "file", "macro", "late"],
     "line": ["file", "block", "late"],
     "unit": ["alone", "host"],
 }
@@ -116,15 +116,20 @@ class Host:
         return "\n".join(self.lines[:i] + new_lines + self.lines[i:]) + "\n"
 
 
-NEST_SHAPES = [
+NEST_SHAPES = [           # evaluated contexts inside a generated expression e (of type long)
     "((%(f)s), %(e)s)",
     "((%(e)s) + ((%(f)s), 0))",
     "((%(e)s) ? ((%(f)s), 1L) : 2L)",
-    "(1 ? (%(e)s) : (long)(0 * sizeof(int[1 + !((%(f)s), 1)])))",
     "(c10_id(((%(f)s), (long)(%(e)s))))",
+    "((long)c10_arr[((%(f)s), 1)] + (%(e)s))",
 ]
+UNEVAL_SHAPES = [         # unevaluated operand inside a generated expression
+    "(1 ? (%(e)s) : (long)(0 * sizeof(int[1 + !((%(f)s), 1)])))",
+    "((%(e)s) + (long)(0 * sizeof((%(f)s), 0)))",
+    "((%(e)s) + (long)(0 * _Alignof(typeof((%(f)s), 0))))",
+]
+NEST_DECLS = ["static long c10_id(long c10_v) { return c10_v; }", "static int c10_arr[4];"]
 MACRO_FN = "#define C10_M(...) __VA_ARGS__"
-MACRO_FN2 = "#define C10_N(c10_x) c10_x c10_x"      # not used for insertion (would duplicate)
 LATE_LINES = 500
 
 
@@ -133,108 +138,78 @@ def late_prefix(n=LATE_LINES):
     out = []
     i = 0
     while len(out) < n:
-        out.append("static int c10_l%d = %d;" % (i, i))
-        out.append("static int c10_lf%d(int c10_a)" % i)
-        out.append("{")
-        out.append("\treturn c10_a + c10_l%d * %d;" % (i, i % 7))
-        out.append("}")
+        out += ["static int c10_l%d = %d;" % (i, i), "static int c10_lf%d(int c10_a)" % i, "{",
+                "\treturn c10_a + c10_l%d * %d;" % (i, i % 7), "}"]
         i += 1
-    return out[:n - (n % 5)] if n % 5 else out
+    return out
+
+
+def positions_of(t):
+    return [p for p in POSITIONS[KINDS[t["kind"]]] if p not in t.get("skip", {})]
 
 
 def instantiate(t, host, pos, rng):
-    """Returns (program text, description) or None when the position does not apply."""
+    """The template placed at `pos` of `host`.  Returns (program text, description of the place) or None
+    when the position does not apply to this template/host."""
     k = KINDS[t["kind"]]
     code = t["code"]
-    decls = t.get("decls", "")
-    pre = [decls] if decls else []
-    macro = False
-    late = False
+    head = [t["decls"]] if t.get("decls") else []
     base = POSITIONS[k][0]
+    macro = late = False
     if pos == "macro":
         macro, pos = True, base
     elif pos == "late":
         late, pos = True, base
-    if macro:
-        if "\n#" in "\n" + code or k in ("line", "unit"):
-            return None
-        shape = rng.choice(["fn", "obj"])
-        if shape == "fn":
-            frag_def = [MACRO_FN]
-            wrap = lambda s: "C10_M(" + s + ")"          # noqa: E731
-        else:
-            frag_def = ["#define C10_O " + " ".join(code.split("\n"))]
-            wrap = None
     if k == "unit":
         if pos == "alone":
             return code.replace("{HOST}", ""), "alone"
         if "{HOST}" not in code:
             return None
-        return (decls + "\n" if decls else "") + code.replace("{HOST}", host.text), "host"
-    lines = None
-    if k == "decl":
-        frag = code
-    elif k == "stmt":
-        frag = code
-    elif k == "expr":
-        frag = None
-    else:
-        frag = code
-    if macro and k != "expr":
-        if wrap:
-            frag = wrap(frag)
+        return code.replace("{HOST}", host.text), "host"
+    frag = code
+    if macro:
+        if k == "line" or "#" in code:
+            return None
+        if rng.random() < 0.5:
+            head = [MACRO_FN] + head
+            frag = "C10_M(" + code + ")"
         else:
+            head = ["#define C10_O " + " ".join(code.split("\n"))] + head
             frag = "C10_O"
     h = host
-    if k in ("decl", "stmt", "line") or (k == "expr" and pos in ("block", "file")):
-        if k == "expr":
-            f = code
-            if macro:
-                f = wrap(code) if wrap else "C10_O"
-            if pos == "block":
-                frag = "\t(void)(%s);" % f
-            else:
-                frag = "unsigned long c10_sz = sizeof((%s), 0);" % f
-        if pos == "file":
-            pts = h.file_pts
-        elif pos == "block":
-            pts = h.block_pts
-        elif pos == "nested":
-            pts = h.nested_pts or h.block_pts
+    if k == "expr":
+        if pos in ("nested", "unevaluated"):
+            if not h.expr_pts:
+                return None
+            i = rng.choice(h.expr_pts)
+            m = re.match(r"^(\t+)out\(\(long\)\((.*)\)\);$", h.lines[i])
+            shape = rng.choice(NEST_SHAPES if pos == "nested" else UNEVAL_SHAPES)
+            e = shape % {"f": frag, "e": "(long)(" + m.group(2) + ")"}
+            body = h.lines[:i] + ["%sout((long)(%s));" % (m.group(1), e)] + h.lines[i + 1:]
+            head = head + NEST_DECLS
+            where = "%s@%d" % (pos, i)
+            return _finish(head, body, late, macro, where)
+        if pos == "block":
+            frag = "(void)(%s);" % frag
+        elif pos == "file":
+            frag = "unsigned long c10_sz = sizeof((%s), 0);" % frag
         else:
             return None
-        if not pts:
-            return None
-        i = rng.choice(pts)
-        new = frag.split("\n")
-        if pos != "file" and k != "line":
-            new = ["\t" + x if not x.startswith(("\t", "#")) else x for x in new]
-        body = h.lines[:i] + new + h.lines[i:]
-        where = "%s@%d" % (pos, i)
-    elif k == "expr" and pos == "nested":
-        if not h.expr_pts:
-            return None
-        i = rng.choice(h.expr_pts)
-        ln = h.lines[i]
-        m = re.match(r"^(\t+)out\(\(long\)\((.*)\)\);$", ln)
-        f = code
-        if macro:
-            f = wrap(code) if wrap else "C10_O"
-        shape = rng.choice(NEST_SHAPES)
-        e = shape % {"f": f, "e": "(long)(" + m.group(2) + ")"}
-        body = h.lines[:i] + ["%sout((long)(%s));" % (m.group(1), e)] + h.lines[i + 1:]
-        pre = pre + ["static long c10_id(long c10_v) { return c10_v; }"]
-        where = "nested@%d" % i
-    else:
+    pts = {"file": h.file_pts, "block": h.block_pts, "nested": h.nested_pts or h.block_pts}.get(pos)
+    if not pts:
         return None
-    head = []
-    if macro:
-        head += frag_def
-    head += pre
+    i = rng.choice(pts)
+    new = frag.split("\n")
+    if pos != "file" and k != "line":
+        new = [x if x.startswith(("\t", "#")) else "\t" + x for x in new]
+    body = h.lines[:i] + new + h.lines[i:]
+    return _finish(head, body, late, macro, "%s@%d" % (pos, i))
+
+
+def _finish(head, body, late, macro, where):
     if late:
         head = late_prefix() + head
-    text = "\n".join(head + body) + "\n"
-    return text, where + ("+macro" if macro else "") + ("+late" if late else "")
+    return "\n".join(head + body) + "\n", where + ("+macro" if macro else "") + ("+late" if late else "")
 
 
 # --------------------------------------------------------------------------- running compilers
